@@ -32,6 +32,14 @@ func (f *NonNilFlow) valueNonNil(v ssa.Value, b *ssa.BasicBlock) bool {
 		}
 	case *ssa.FieldAddr, *ssa.IndexAddr:
 		return true
+	case *ssa.Extract:
+		// v, err := lib(...) with err == nil established: the library's (value, error) convention
+		if call, ok := x.Tuple.(*ssa.Call); ok && libraryNonNilOnNilErr[StaticCalleeName(&call.Call)] {
+			ei := ErrorResultIndex(call.Call.Signature())
+			if ei >= 0 && ei != x.Index && errNilAt(b, call, ei) {
+				return true
+			}
+		}
 	}
 	return f.m.provablyNonNil(v, b, 0)
 }
@@ -118,6 +126,11 @@ func (f *NonNilFlow) solve(fn *ssa.Function, path string) []bool {
 								if x, neq, ok := NilCmp(c.V); ok && neq == c.True && f.m.ValPath(x) == path {
 									e = true
 								}
+								// `if err := recv.init(); err != nil { return }`: on the err == nil edge the callee's
+								// conditional guarantee holds
+								if x, neq, ok := NilCmp(c.V); ok && neq != c.True && f.ensuredOnNilErr(x, path) {
+									e = true
+								}
 							}
 						}
 					}
@@ -174,4 +187,80 @@ func (f *NonNilFlow) Ensures(fn *ssa.Function, field string) bool {
 		f.ensures[k] = 2
 	}
 	return ok
+}
+
+// EnsuresOnNilErr: every return of g whose error result may be nil is reached with param0.<field> non-nil
+// (the conditional form of Ensures for initialisers that can fail).
+func (f *NonNilFlow) EnsuresOnNilErr(g *ssa.Function, field string) bool {
+	ei := ErrorResultIndex(g.Signature)
+	if ei < 0 || len(g.Params) == 0 {
+		return false
+	}
+	k := f.m.Key(g) + "|onnil|" + field
+	switch f.ensures[k] {
+	case 1:
+		return true
+	case 2:
+		return false
+	}
+	if _, inProgress := f.ensures[k]; inProgress {
+		return false
+	}
+	f.ensures[k] = 0
+	gpath := g.Params[0].Name() + "." + field
+	ok, n := true, 0
+	for _, r := range ReturnsOf(g) {
+		if f.m.ProvablyNonNilError(RetVal(r, ei), r.Block()) {
+			continue
+		}
+		n++
+		if !f.At(g, r, gpath) {
+			ok = false
+		}
+	}
+	if n == 0 {
+		ok = false
+	}
+	if ok {
+		f.ensures[k] = 1
+	} else {
+		f.ensures[k] = 2
+	}
+	return ok
+}
+
+// ensuredOnNilErr: errVal is the error result of a static call recv.g(...) with path == recv.<field>, and every return
+// of g whose error may be nil is reached with param0.<field> non-nil.
+func (f *NonNilFlow) ensuredOnNilErr(errVal ssa.Value, path string) bool {
+	v := Unwrap(errVal)
+	var call *ssa.Call
+	switch x := v.(type) {
+	case *ssa.Call:
+		call = x
+	case *ssa.Extract:
+		if c, ok := x.Tuple.(*ssa.Call); ok && x.Index == ErrorResultIndex(c.Call.Signature()) {
+			call = c
+		}
+	}
+	if call == nil || call.Call.IsInvoke() || len(call.Call.Args) == 0 {
+		return false
+	}
+	cs := f.m.Callees(&call.Call)
+	if len(cs) != 1 {
+		return false
+	}
+	recv := f.m.ValPath(call.Call.Args[0])
+	if !strings.HasPrefix(path, recv+".") {
+		return false
+	}
+	field := path[len(recv)+1:]
+	if strings.ContainsAny(field, ".[*") {
+		return false
+	}
+	return f.EnsuresOnNilErr(cs[0], field)
+}
+
+// libraryNonNilOnNilErr: library constructors whose first result is non-nil whenever their error is nil.
+var libraryNonNilOnNilErr = map[string]bool{
+	"regexp.Compile": true, "regexp.CompilePOSIX": true,
 }
